@@ -26,7 +26,12 @@ def run(ctx):
     ctx.add_tlc(r, "exhaustive relay: mechanism => C02 (and C15, C18 invariants)")
     if not r.ok:
         raise vlib.Inconclusive("model finding in TcpConn.tla / MC_TcpConn_C02.cfg: %s" % r.violated)
-    for cfg, what in (("MC_TcpConn_C02Live.cfg", "liveness under weak fairness: every accepted connection ends, everything sent is delivered"),
+    rp = vlib.tlc(ctx, "TcpConn", "MC_TcpConn_C02Pause.cfg" if q else "MC_TcpConn_C02PauseThorough.cfg", workers="auto", timeout=1800)
+    ctx.add_tlc(rp, "back-pressure: a receiver may stop reading for any time; a relay write only blocks (no timeout transition)")
+    if not rp.ok:
+        raise vlib.Inconclusive("model finding in TcpConn.tla / MC_TcpConn_C02Pause*.cfg: %s" % rp.violated)
+    for cfg, what in (("MC_TcpConn_C02PauseLive.cfg", "liveness with receivers that pause once: everything is still delivered"),
+                      ("MC_TcpConn_C02Live.cfg", "liveness under weak fairness: every accepted connection ends, everything sent is delivered"),
                       ("MC_TcpConn_C02Indep.cfg", "liveness with only the proxy fair: a half-close and the data before it reach the peer "
                                                   "whatever the other direction does")):
         r = vlib.tlc(ctx, "TcpConn", cfg, workers="auto", timeout=1800)
@@ -35,11 +40,11 @@ def run(ctx):
             raise vlib.Inconclusive("liveness model finding (%s): %s" % (cfg, r.violated))
 
     rng = random.Random(ctx.seed)
-    behs = tc.gen(ctx, "Gen_TcpConn_C02.cfg", 6000 if q else 60000, seed=ctx.seed)
+    behs = tc.gen(ctx, "Gen_TcpConn_C02.cfg", 4000 if q else 60000, seed=ctx.seed)
     relay = [b for b in behs if tc.features(b)["dial"]]
-    pick = tc.select(relay, 300 if q else 5000, lambda f: (min(f["trecv"], 3), min(f["crecv"], 3)), rng)
+    pick = tc.select(relay, 200 if q else 5000, lambda f: (min(f["trecv"], 3), min(f["crecv"], 3)), rng)
     pick += tc.select([b for b in behs if not tc.features(b)["dial"]], 10 if q else 40, lambda f: f["ntok"], rng)
-    if len(pick) < (200 if q else 900):
+    if len(pick) < (150 if q else 900):
         raise vlib.Inconclusive("only %d behaviours generated" % len(pick))
     cases, brows, _, hung = tc.run_family(ctx, "C02_", pick, label="c02-relay", timeout_ms=5000, par=8 if q else 12)
     if hung:
@@ -48,16 +53,16 @@ def run(ctx):
     # steered generation: orders that random walks rarely take
     #  (a) the target half-closes first, the client sees it and only then uploads its data and half-closes
     tf = [b for b in tc.gen(ctx, "Gen_TcpConn_C02TargetFirst.cfg", 2500 if q else 12000, seed=ctx.seed + 1) if tc.features(b)["trecv"] >= 1]
-    tpick = tc.select(tf, 40 if q else 400, lambda f: (min(f["trecv"], 3), min(f["crecv"], 3)), rng)
+    tpick = tc.select(tf, 30 if q else 400, lambda f: (min(f["trecv"], 3), min(f["crecv"], 3)), rng)
     #  (b) the relay outlives the handshake deadline: the target speaks only after accept + timeout (real time: 600 ms
     #      timeout; virtual time: the service's 59 s)
     lt = [b for b in tc.gen(ctx, "Gen_TcpConn_C02Late.cfg", 4000 if q else 16000, seed=ctx.seed + 2) if tc.features(b)["crecv"] >= 1]
-    lpick = tc.select(lt, 40 if q else 300, lambda f: (min(f["trecv"], 2), min(f["crecv"], 2), f["ticks"]), rng)
+    lpick = tc.select(lt, 30 if q else 300, lambda f: (min(f["trecv"], 2), min(f["crecv"], 2), f["ticks"]), rng)
     #  (c) a large upload (3 x 1 MiB) to a target that has finished its own direction and does not read for 400 ms: when the
     #      handler is done the data still sits in the proxy's socket buffers and must nevertheless arrive completely
     import copy
     big = []
-    for b in [b for b in tf if tc.features(b)["trecv"] >= 2 and tc.features(b)["tfin"]][:6 if q else 30]:
+    for b in [b for b in tf if tc.features(b)["trecv"] >= 2 and tc.features(b)["tfin"]][:4 if q else 30]:
         b = copy.deepcopy(b)
         b["ov"] = {"craft": "pause", "datasize": 1 << 20}
         big.append(b)
@@ -68,6 +73,24 @@ def run(ctx):
     if h4:
         raise vlib.Inconclusive("handlers still running after the script ended (see notes): %s" % ctx.notes[-1])
     ctx.cov["large_upload_bytes_to_target"] = sorted(c["wtr"] for c in bcases)
+    #  (d) back-pressure: a receiver (target during an upload, client during a download) stops reading for longer than the
+    #      handler's timeout while more data is in flight than the (small) socket buffers hold; the relay write just blocks
+    pz = tc.gen(ctx, "Gen_TcpConn_C02Pause.cfg", 3000 if q else 12000, seed=ctx.seed + 4)
+    zup = tc.select([b for b in pz if tc.features(b)["tpause"] and tc.features(b)["trecv"] >= 1], 8 if q else 60,
+                    lambda f: (min(f["trecv"], 2), min(f["crecv"], 1)), rng)
+    zdn = tc.select([b for b in pz if tc.features(b)["cpause"] and tc.features(b)["crecv"] >= 1], 8 if q else 60,
+                    lambda f: (min(f["crecv"], 2), min(f["trecv"], 1)), rng)
+    if len(zup) < 4 or len(zdn) < 4:
+        raise vlib.Inconclusive("too few back-pressure behaviours (%d up, %d down)" % (len(zup), len(zdn)))
+    zpick = []
+    for b in zup + zdn:
+        b = copy.deepcopy(b)
+        b["ov"] = {"datasize": 400 << 10, "tdatasize": 400 << 10}
+        zpick.append(b)
+    zcases, _, _, h5 = tc.run_family(ctx, "C02_", zpick, label="c02-paused-receiver", par=8, extra=["-hang-ms", "8000"], **tc.TIMED)
+    if h5:
+        raise vlib.Inconclusive("handlers still running after the script ended (see notes): %s" % ctx.notes[-1])
+    tc.mech_pass(ctx, zcases, zpick, label="c02-paused-receiver")
     if len(tpick) < 20 or len(lpick) < 20:
         raise vlib.Inconclusive("steered generation produced too few behaviours (%d, %d)" % (len(tpick), len(lpick)))
     tcases, _, _, h2 = tc.run_family(ctx, "C02_", tpick, label="c02-target-ends-first", timeout_ms=5000, par=8 if q else 12)
@@ -83,8 +106,8 @@ def run(ctx):
         tc.mech_pass(ctx, vcases, lpick, label="c02-vt-relay-outlives-deadline")
     except ImportError:
         ctx.cov["skipped"].append("virtual-time variant: not built")
-    pick = pick + tpick + lpick + big
-    cases = cases + tcases + lcases + bcases
+    pick = pick + tpick + lpick + big + zpick
+    cases = cases + tcases + lcases + bcases + zcases
     ntv = 0
     for b in pick:
         f = tc.features(b)
